@@ -230,7 +230,21 @@ def _sig_hardbreak_in_setext(case: dict, f: Failure) -> bool:
     return c01._has_heading_with_br(canon.canon_in(case["text"])[1])
 
 
+def _sig_ellipsis_before_escape(case: dict, f: Failure) -> bool:
+    """Same root cause as C09's finding of this name (ellipses on; '...' directly before a backslash escape in the first output)."""
+    import re
+
+    o = dict(case["opts"])
+    if case.get("kind", "md") != "md" or not o.get("ellipses") or o.get("plaintext"):
+        return False
+    once = opts.fmt(case["text"], o)
+    o2 = dict(o, ellipses=False)
+    once2 = opts.fmt(case["text"], o2)
+    return re.search(r"\.\.\.[^\s\w]*[ \t]*\\", once) is not None and opts.fmt(once2, o2) == once2
+
+
 SIGS = {
+    "ellipsis_before_escape": _sig_ellipsis_before_escape,
     "hardbreak_in_setext_heading": _sig_hardbreak_in_setext,
     "blank_lines_settle_on_second_run": _sig_blank_lines_settle,
     "tight_list_flips_loose": _sig_tight_list_flips,
